@@ -1,8 +1,10 @@
 CHECK = {
         "obligations": ["C02.c02_reassembly", "C02.c02_prefix_always", "C02.gen_fast", "C02.gen_stale", "C02.gen_loop",
-                        "C02.gen_structure", "C02.write_sim", "C02.drain_sim", "C02.run_sim"],
-        "scenarios": ["C02"],
-        "reset_ops": ["sb.new"],
+                        "C02.gen_structure", "C02.write_sim", "C02.drain_sim", "C02.run_sim",
+                        "C02Heap.gen_structure", "C02Heap.gen_less", "C02Heap.gen_index", "C02Heap.gen_branches"],
+        "lean_module": "CloakModel.Props.C02All",
+        "scenarios": ["C02", "C02heap"],
+        "reset_ops": ["sb.new", "hp.new", "hp.sbnew"],
         "rule": "every arrival order of n<=6 (quick) / n<=8 (thorough) frames x every closing position, reads interleaved from the seed, "
                 "bases 0 / near 2^32 / above 2^63; random permutations up to 200 (2000) frames incl. just below 2^64; malformed duplicate/stale stream. "
                 "non-trivial = arrival order differs from the identity; distinct by (order, closing position)",
